@@ -65,7 +65,8 @@ def main():
         t = time.time()
         try:
             open(p, "w").write(s.replace(old, new))
-            r = subprocess.run(["/venv/bin/python", "-m", "vf", prop, "--tier", tier], cwd="/verif", capture_output=True, text=True)
+            r = subprocess.run(["/venv/bin/python", "-m", "vf", prop, "--tier", tier], cwd="/verif", capture_output=True, text=True,
+                               env=dict(os.environ, VF_OUT="/tmp/vf_seed_out"))
         finally:
             subprocess.run(["git", "-C", "/repo", "checkout", "--", "."], check=True)
         viol = [l for l in r.stdout.splitlines() if l.startswith("VIOLATION")]
